@@ -353,6 +353,11 @@ func units(tier string) []engine.Unit {
 		run(r, &cfg[col.SetLike[int]]{name: "SetLike[int]", universe: uni, class: func(v col.SetLike[int]) string { return fmt.Sprint(v.AsArray()) }})
 	})
 	add("large-operands", largeUnit)
+	add("again-after-a-change-of-an-operand", againAfterChange)
+	add("floats-with-not-a-number", func(r *engine.Rec) {
+		// the collator ranks not-a-number equal to itself: it is a member like any other (Go's == never finds it)
+		run(r, &cfg[float64]{name: "float64 with NaN", universe: []float64{math.NaN(), -1, 0, 2, math.Inf(1)}, class: func(v float64) string { return fmt.Sprint(v) }})
+	})
 	return us
 }
 
